@@ -469,6 +469,9 @@ def run(ctx):
         ctx.ob('opcode-byte', f'enum/{name}', bool(rb) and rb[0] == b,
                f'Instruction.{name} = {b} in instruction.py but the checker decodes {rb} as {name}',
                py.where('instruction', py.cls('Instruction', 'instruction').node))
+    # a Load is accepted as the intended term only if memory slots are counted alike on both sides (shared with C04)
+    from . import c04
+    c04.memory_and_load(ctx, py, w, rust_arms)
     claims_discipline(ctx, py, rust_arms)
     axioms_three_way(ctx, w, rust_arms)
     phase_protocol(ctx, py)
